@@ -31,15 +31,18 @@ VARIABLES l,        \* index of the next event
           reopened, \* a reopen happened since lastObs and no write since
           hands,    \* handle -> [q, at, store]  (evaluated, not yet collected searches)
           wpre,     \* store before the most recent write call (the pre-state of crash / fault observations)
-          wev       \* index of the most recent write event
+          wev,      \* index of the most recent write event
+          unfl,     \* identifiers whose accepted write may still be pending (async mode)
+          slept,    \* flusher poll periods elapsed since the last flush that the flusher must have done
+          due       \* the last event was a tick at which the flusher had to flush
 
-vars == <<l, store, pstore, hdr, lastObs, reopened, hands, wpre, wev>>
+vars == <<l, store, pstore, hdr, lastObs, reopened, hands, wpre, wev, unfl, slept, due>>
 
 Empty == [x \in {} |-> 0]
 NoHdr == [ev |-> "none"]
 
 Init == /\ l = 1 /\ store = Empty /\ pstore = Empty /\ hdr = NoHdr
-        /\ lastObs = 0 /\ reopened = FALSE /\ hands = Empty /\ wpre = Empty /\ wev = 0
+        /\ lastObs = 0 /\ reopened = FALSE /\ hands = Empty /\ wpre = Empty /\ wev = 0 /\ unfl = {} /\ slept = 0 /\ due = FALSE
 
 -----------------------------------------------------------------------------
 (* Schema helpers, from the header of the current test                     *)
@@ -92,6 +95,12 @@ ApplyBatch(S, b, n) ==
 
 e == Trace[l]
 
+\* the identifiers a write call touched even when the value did not change (a re-save is written again)
+Touched == CASE e.ev = "put"  -> IF e.c = "ok" THEN {e.slot} ELSE {}
+             [] e.ev = "many" -> {e.batch[i].slot : i \in {j \in 1..e.n : "o" \in DOMAIN e.batch[j]}}
+             [] OTHER         -> {}
+
+
 Common == /\ l <= Len(Trace)
           /\ l' = l + 1
           /\ pstore' = store
@@ -101,15 +110,20 @@ Write(S) == /\ store' = S
             /\ reopened' = FALSE
             /\ hands' = [h \in DOMAIN hands |-> [hands[h] EXCEPT !.gone = @ \cup (DOMAIN store \ DOMAIN S)]]
             /\ wpre' = store /\ wev' = l
-            /\ UNCHANGED <<hdr, lastObs>>
+            \* pending writes: what was (re)written may be pending, what was deleted is not
+            /\ unfl' = IF hdr.ev = "hdr" /\ hdr.cfg.async
+                       THEN (unfl \cup {u \in DOMAIN S : u \notin DOMAIN store \/ S[u] # store[u]} \cup Touched) \cap DOMAIN S
+                       ELSE {}
+            /\ due' = FALSE
+            /\ UNCHANGED <<hdr, lastObs, slept>>
 
-Pass == UNCHANGED <<store, hdr, lastObs, reopened, hands, wpre, wev>>
+Pass == UNCHANGED <<store, hdr, lastObs, reopened, hands, wpre, wev, unfl, slept>> /\ due' = FALSE
 
 Reset == /\ e.ev = "reset" /\ Common
-         /\ store' = Empty /\ hdr' = NoHdr /\ lastObs' = 0 /\ reopened' = FALSE /\ hands' = Empty /\ wpre' = Empty /\ wev' = 0
+         /\ store' = Empty /\ hdr' = NoHdr /\ lastObs' = 0 /\ reopened' = FALSE /\ hands' = Empty /\ wpre' = Empty /\ wev' = 0 /\ unfl' = {} /\ slept' = 0 /\ due' = FALSE
 
 Hdr == /\ e.ev = "hdr" /\ Common
-       /\ hdr' = e /\ UNCHANGED <<store, lastObs, reopened, hands, wpre, wev>>
+       /\ hdr' = e /\ UNCHANGED <<store, lastObs, reopened, hands, wpre, wev, unfl, slept>> /\ due' = FALSE
 
 Put == /\ e.ev = "put" /\ Common
        /\ Write(IF e.c = "ok" THEN Upd(store, e.slot, e.after) ELSE store)
@@ -128,19 +142,45 @@ DelSearch == /\ e.ev = "delsearch" /\ Common
 
 Reopen == /\ e.ev = "reopen" /\ Common
           /\ reopened' = TRUE
+          /\ unfl' = IF e.close THEN {} ELSE unfl
+          /\ slept' = 0 /\ due' = FALSE
           /\ UNCHANGED <<store, hdr, lastObs, hands, wpre, wev>>
 
 Obs == /\ e.ev = "obs" /\ Common
        /\ lastObs' = l /\ reopened' = FALSE
-       /\ UNCHANGED <<store, hdr, hands, wpre, wev>>
+       /\ UNCHANGED <<store, hdr, hands, wpre, wev, unfl, slept>> /\ due' = FALSE
 
 Eval == /\ e.ev = "eval" /\ Common
         /\ hands' = [h \in DOMAIN hands \cup {e.h} |-> IF h = e.h THEN [q |-> e.q, c |-> e.c, len |-> e.len, S |-> store, gone |-> {}] ELSE hands[h]]
-        /\ UNCHANGED <<store, hdr, lastObs, reopened, wpre, wev>>
+        /\ UNCHANGED <<store, hdr, lastObs, reopened, wpre, wev, unfl, slept>> /\ due' = FALSE
 
 Collect == /\ e.ev = "collect" /\ Common /\ Pass
 
-Other == /\ e.ev \in {"end", "panic", "hang", "flush", "mutate", "args", "note", "switch", "tick", "crash", "fault", "corrupt"} /\ Common /\ Pass
+Other == /\ e.ev \in {"end", "panic", "hang", "mutate", "args", "note", "crash", "fault", "corrupt"} /\ Common /\ Pass
+
+\* FlushAll / FlushAllAndCommit / Commit
+FlushEv == /\ e.ev = "flush" /\ Common
+           /\ unfl' = IF e.c = "ok" /\ e.what \in {"all", "allcommit"} THEN {} ELSE unfl
+           /\ due' = FALSE
+           /\ UNCHANGED <<store, hdr, lastObs, reopened, hands, wpre, wev, slept>>
+
+\* one poll period of the background flusher elapses with no foreground call.  The flusher wakes
+\* up, and flushes if the pending count has reached the threshold or the timeout has elapsed.
+\* (It may also have flushed earlier: only the obligation is tracked.)
+TmoTicks == hdr.cfg.tmo_ms \div 100
+TickEv == /\ e.ev = "tick" /\ Common
+          /\ LET d == hdr.cfg.async /\ (Cardinality(unfl) >= hdr.cfg.thr \/ slept + 1 >= TmoTicks)
+             IN /\ due' = d
+                /\ unfl' = IF d THEN {} ELSE unfl
+                /\ slept' = IF d THEN 0 ELSE slept + 1
+          /\ UNCHANGED <<store, hdr, lastObs, reopened, hands, wpre, wev>>
+
+\* Create on the existing collection with other cache / async settings (C17): data is untouched;
+\* leaving asynchronous mode must not strand pending writes
+SwitchEv == /\ e.ev = "switch" /\ Common
+            /\ hdr' = IF e.c = "ok" THEN [hdr EXCEPT !.cfg = e.cfg] ELSE hdr
+            /\ slept' = 0 /\ due' = FALSE
+            /\ UNCHANGED <<store, lastObs, reopened, hands, wpre, wev, unfl>>
 
 \* environment: files removed / added, index entries removed, schema removed while no handle is open;
 \* the abstract map follows the FILES (that is what Repair must converge to)
@@ -151,7 +191,7 @@ AfterDamage(S, d) ==
 DamageEv == /\ e.ev = "damage" /\ Common
             /\ Write(AfterDamage(store, e))
 
-Next == l <= Len(Trace) /\ (Reset \/ Hdr \/ Put \/ Many \/ Del \/ DelAll \/ DelSearch \/ Reopen \/ Obs \/ Eval \/ Collect \/ Other \/ DamageEv)
+Next == l <= Len(Trace) /\ (Reset \/ Hdr \/ Put \/ Many \/ Del \/ DelAll \/ DelSearch \/ Reopen \/ Obs \/ Eval \/ Collect \/ Other \/ DamageEv \/ FlushEv \/ TickEv \/ SwitchEv)
 
 Spec == Init /\ [][Next]_vars
 
@@ -522,6 +562,38 @@ Conf_C06F ==
 \* C19 (file part): whatever a file of the collection directory contains, calls return; none panics
 Conf_C19F ==
   At => (E.ev = "corrupt" => \A i \in 1..Len(E.res) : E.res[i][2] # "panic")
+
+\* C10 asynchronous writes: visible at once (ReadsOK in async configurations), flushed by
+\* threshold / timeout without further calls, complete and committed at Close / FlushAllAndCommit,
+\* complete at FlushAll; a deleted pending object never appears on disk
+DirMap(d, recs) == [u \in {d.files[i][1] : i \in 1..Len(d.files)} |->
+                      LET i == CHOOSE i \in 1..Len(d.files) : d.files[i][1] = u IN IF d.files[i][3] = "ok" THEN recs[d.files[i][2]] ELSE Empty]
+NoResurrection(d, recs) ==
+  \A i \in 1..Len(d.files) : /\ d.files[i][1] \in DOMAIN store             \* nothing deleted (or never accepted) is on disk
+                              /\ d.files[i][3] = "ok"
+                              /\ (recs[d.files[i][2]] = store[d.files[i][1]] \/ d.files[i][1] \in unfl)
+AllOnDisk(d, recs)  == DirMap(d, recs) = store
+Committed(d)        == "sidx" \in DOMAIN d /\ {d.sidx[i] : i \in 1..Len(d.sidx)} = DOMAIN store /\ Len(d.sidx) = Cardinality(DOMAIN store)
+Conf_C10 ==
+  At =>
+  /\ E.ev = "obs" => (ReadsOK(E, store) /\ ("dir" \in DOMAIN E => NoResurrection(E.dir, E.recs)))
+  /\ E.ev = "tick" => /\ NoResurrection(E.dir, E.recs)
+                       /\ (hdr.cfg.async => E.fl >= 1)        \* the background flusher exists
+                       /\ (due => (AllOnDisk(E.dir, E.recs) /\ Committed(E.dir)))
+  /\ (E.ev = "flush" /\ "dir" \in DOMAIN E) =>
+        /\ E.c = "ok"
+        /\ E.what \in {"all", "allcommit"} => AllOnDisk(E.dir, E.recs)
+        /\ E.what \in {"allcommit", "commit"} => Committed(E.dir)
+  /\ (E.ev = "reopen" /\ E.close /\ "dir" \in DOMAIN E) => (E.c = "ok" /\ AllOnDisk(E.dir, E.recs) /\ Committed(E.dir))
+
+\* C17 (settings part): Create with a compatible schema is idempotent, preserves data, and may switch
+\* cache / asynchronous writes at any time without losing pending writes or disturbing the process
+Conf_C17 ==
+  At =>
+  /\ E.ev = "switch" => E.c = "ok"
+  /\ E.ev = "obs" => ReadsOK(E, store) /\ QueriesOK(E, store)
+  /\ E.ev = "tick" => NoResurrection(E.dir, E.recs)
+  /\ (E.ev = "reopen" /\ E.close /\ "dir" \in DOMAIN E) => (E.c = "ok" /\ AllOnDisk(E.dir, E.recs) /\ Committed(E.dir))
 
 \* C15 hooks gate every insertion path
 HooksOK(hooks, i, o) ==
